@@ -164,7 +164,7 @@ func (s *Session) report(id string, cfg *CheckConfig, dev bool, t0 time.Time, lo
 		os.MkdirAll(vdir, 0o755)
 		u := failedUnit[i]
 		var rr *ReplayResult
-		if o.Script != "" && u.Con != nil && u.Con.Replay != "" {
+		if u.Con != nil && u.Con.Replay != "" { // also for anchor/binding failures: the corpus of the template is searched
 			if prev, ok := replayed[u.Key]; ok && prev >= 2 {
 				rr = &ReplayResult{Template: u.Con.Replay, Note: "replay skipped: two obligations of this function were already replayed in this run"}
 			} else {
